@@ -11,6 +11,7 @@
 -/
 import LbzVerif.Lemmas.SchedD.Safe3
 import LbzVerif.Lemmas.SchedD.Witness
+import LbzVerif.Lemmas.SchedD.Taint
 
 namespace LbzVerif.Props.C10
 open LbzVerif.Model.SchedD LbzVerif.Lemmas.SchedD LbzVerif.Gen
@@ -95,6 +96,15 @@ theorem legit_only_at_parser_base {c : Cfg} {s : State} (h : Reach c s) (hf : s.
   rcases hj with hj | ⟨k, hk⟩
   · exact (g.jobs j hj).2.1 hm
   · exact (g.busy _ hk).2.1 hm
+
+/-- No retrieve job is ever attached behind `head_offs` (it would decode
+    released input), hence none ever acts as master, is taken over by the parser
+    or reaches the sink: the model's ghost `taint` flag is never set, and no
+    job, emit job, buffer or unord_blk is ever marked corrupt. -/
+theorem no_stale_data {c : Cfg} {s : State} (h : Reach c s) :
+    s.taint = false ∧ (∀ j ∈ s.retrQ, j.corrupt = false) ∧ (∀ o ∈ s.reordQ, o.corrupt = false) :=
+  let t := ti_reach h
+  ⟨t.tt, t.jq, t.ob⟩
 
 /-- Non-vacuity: on the F4/F2 witness shape (one real block, four spurious
     candidates, n = 2) a run reaches clean termination having written exactly
